@@ -38,6 +38,11 @@ def run(run):
             # runtime itself must not be such a reference while it waits for work, and spawn must keep none (C07 rules O7.1/O7.2)
             c07.no_strong_across_select(run, lc)
             c07.spawn_keeps_nothing(run, f, lc)
+            # "... (or queued message) still exists": every kind of queued mailbox message - the stop marker included - owns a
+            # strong ActorRef (C01 rules O1.1 / O1.6)
+            from rules import sendrules
+            sendrules.envelope_types(run, f, rule="O11.4")
+            sendrules.stop_marker(run, f, sendpaths.get(f), rule="O11.4")
         # erased handles report the same identity: the identity/is_alive forwarders
         for d, fn in sorted(f.fns.items()):
             if fn.get("has_body") and fn.get("impl_trait") in c16.SIX and fn["name"] in ("identity", "is_alive") and fn.get("impl_self") is not None:
